@@ -278,12 +278,22 @@ def lock_state(p, lock_pred):
     held = 0
     out = []
     raii = {}     # var decl id -> 1
+    raii_sv = {}  # object SV of the RAII variable -> var decl id
     trylocks = {}
     for i, e in enumerate(ev):
         out.append(held)
         if e.kind == "call" and e.q:
             name = e.q.split("::")[-1]
-            if name == "lock" and e.obj is not None and lock_pred(e.obj):
+            if name in ("lock", "unlock") and e.obj in raii_sv and raii_sv[e.obj] in raii:
+                # explicit unlock()/lock() through a unique_lock object
+                k = raii_sv[e.obj]
+                if name == "unlock" and raii[k] == 1:
+                    raii[k] = 0
+                    held -= 1
+                elif name == "lock" and raii[k] == 0:
+                    raii[k] = 1
+                    held += 1
+            elif name == "lock" and e.obj is not None and lock_pred(e.obj):
                 held += 1
             elif name == "unlock" and e.obj is not None and lock_pred(e.obj):
                 held -= 1
@@ -292,6 +302,7 @@ def lock_state(p, lock_pred):
         elif e.kind == "var" and e.extra and re.search(r"(unique_lock|lock_guard|scoped_lock)$", str(e.extra[1])):
             if any(lock_pred(a) for a in (e.args or ())):
                 raii[e.obj] = 1
+                raii_sv[e.val] = e.obj
                 held += 1
         elif e.kind == "dtor" and e.obj in raii:
             held -= raii.pop(e.obj)
